@@ -11,6 +11,7 @@ import (
 // struct types, uninterpreted sorts, uninterpreted functions, string literals.
 // One Universe per verified function (so that queries stay small).
 type Universe struct {
+	fnRefs []string // function constants declared so far (pairwise distinct)
 	structSorts map[string]*types.Struct // sort name -> struct
 	structOrder []string
 	opaque      map[string]bool   // uninterpreted sorts
